@@ -445,6 +445,11 @@ def run(ctx: Ctx, rep: Report, tier: str) -> None:
     r06_1(ctx, sub)
     rep.absorb(sub, "R02.4")
     classification_guards(ctx, rep, rid="R02.6")
+    # R02.13 a conversion re-reads the entry's text under the target platform's keyword: the group name read back is the
+    # name that was written (C01 R01.17, evaluated with both keywords)
+    from .c01 import group_reference_whole
+
+    group_reference_whole(ctx, rep, rid="R02.13")
     # R02.5 identity and sequence survive
     sub = Report("C02")
     r16_1(ctx, sub)
